@@ -137,6 +137,13 @@ class ExprMixin:
         for m2 in self.repo.modules:
             if name in self.repo.module_consts.get(m2, {}) and self._imports(mod, name):
                 return self.module_const(m2, name)
+        org = self._import_origin(mod, name)
+        if org is not None:
+            key = f"{org[0]}.{org[1]}"
+            if self.reg.get(key) is not None:
+                return VCallable('external', key=key)
+            if name not in self.BUILTINS and not exc_name(name):
+                return VOpaque(key, 'opaque')
         if name in self.BUILTINS:
             return VCallable('builtin', name=name)
         if name in ('int', 'str', 'bool', 'float', 'list', 'tuple', 'dict', 'set', 'bytes', 'type', 'object'):
@@ -147,6 +154,18 @@ class ExprMixin:
                                                   'mimetypes', 'plistlib', 'yaml', 'json5', 'csv', 'pickle'):
             return VOpaque(name, 'module')
         raise Unsupported(f"unresolved name {name!r} at line {getattr(node, 'lineno', '?')}")
+
+    def _import_origin(self, mod, name):
+        """(external module, original name) if `name` is bound by `from <absolute module> import ...` in module mod."""
+        tree = self.repo.modules.get(mod) if mod else None
+        if tree is None:
+            return None
+        for n in ast.walk(tree):
+            if isinstance(n, ast.ImportFrom) and n.level == 0 and n.module:
+                for a in n.names:
+                    if (a.asname or a.name) == name:
+                        return (n.module, a.name)
+        return None
 
     def _imports(self, mod, name):
         if mod is None:
